@@ -115,7 +115,8 @@ def run(ctx):
     res.rule = ("full grid: 12 notAfter values (10 years ago .. 9999-12-31) x 6 renew_delay x 5 random_early_renew on a covering certificate; 12 SAN relations "
                 "(equal, permuted, superset, one missing, wildcard vs base both ways, IDN, IPv4, IPv6 spelled differently, IP missing) x 6 time settings; "
                 "file states {certificate missing, key missing, certificate unparsable}; each evaluated through MainEventLoop::new + the real "
-                "schedule_renewal, 64 draws each (the jitter is thread_rng's: the oracle is an interval). A freshly issued 90-day certificate must not be due.")
+                "schedule_renewal, 64 draws each (the jitter is thread_rng's: the oracle is an interval). A freshly issued 90-day certificate must not be due. After an attempt (every single hook failure / reduced CA fault at every position of a renewal), "
+                "the same process must compute the date from what is on disk at that moment.")
     reqs = []
     for na in NOT_AFTER:
         for rd in RENEW_DELAY:
@@ -166,6 +167,45 @@ def run(ctx):
         if not ds or min(ds) <= 0:
             res.violation("fresh-not-due", "C06|fresh-not-due|life=%d|renew_delay=%s" % tuple(r["meta"]["fresh"]),
                           "a freshly issued certificate that outlives renew_delay is not renewed again immediately", "delays %s, phase: %s" % (ds, str(o["phases"][1])[:200]), replay=r)
+    # after an attempt, in the same daemon process: the renewal date follows what is on disk *now* (every single hook failure and a
+    # reduced CA fault alphabet at every request of a renewal of a due pair, kp_reuse off/on)
+    from .. import flows
+    after_runs = 0
+    for kp in (False, True):
+        base = flows.issuance_request(pair="existing", kp_reuse=kp, ca_cfg={"cert_lifetime_s": 90 * DAY})
+        base["phases"][0]["schedule_after"] = True
+        base["meta"]["after"] = True
+
+        def on_exec(r, o, s, kp=kp):
+            nonlocal after_runs
+            after_runs += 1
+            res.evaluations += 1
+            res.transitions += len(o.get("cps", []))
+            ph = (o.get("phases") or [{}])[0]
+            dev = "+".join("%s:%s" % (x.get("kind"), e1.answer_class(x.get("answer", "ok"))) for x in s) or "nodev"
+            for cid, got in (ph.get("schedule_after") or {}).items():
+                f = (ph.get("final_files") or {}).get(cid) or {}
+                cert, key = f.get("cert") or {}, f.get("key") or {}
+                res.outcomes["after|kp=%s|%s|%s" % (kp, "err" if "err" in got else ("due" if got.get("ok") == 0 else "later"), "cert" if cert.get("exists") else "nocert")] += 1
+                if not cert.get("exists") or not key.get("exists"):
+                    want = 0.0
+                elif not cert.get("chain_parses"):
+                    want = None
+                else:
+                    left = (cert.get("leaf") or {}).get("expires_in_s")
+                    want = float(max(0, (left or 0) - 30 * DAY))
+                if want is None:
+                    ok = "err" in got
+                else:
+                    ok = "ok" in got and abs(got["ok"] - want) <= 5
+                if not ok:
+                    res.violation("due-window", "C06|due-window|after-attempt|kp_reuse=%s|%s" % (kp, "stale" if want and got.get("ok") == 0 else "other"),
+                                  "after an attempt the renewal date is computed from the files on disk now: %s" % ("an error" if want is None else "%.0f s" % want),
+                                  "%s (after %s)" % (got, dev), replay=r)
+
+        st = e1.explore(ctx.pool, base, [dict(e1.REDUCED, hook=["exit:1"])], 1, on_exec)
+        flows.account_divergences(res, st)
+    res.extra["after_attempt_runs"] = after_runs
     res.extra["grid"] = {"notAfter": [n[0] for n in NOT_AFTER], "renew_delay": [r[0] for r in RENEW_DELAY], "random_early_renew": [r[0] for r in EARLY],
                          "san_relations": list(SAN_RELATIONS)}
     res.assumptions = ["OpenSSL reads the wall clock inside expires_in (not virtualised): +-3 s tolerance",
